@@ -366,6 +366,12 @@ def rangeList (lo : Int) : Nat → List (Val N)
 
 def isIntegerN (x : N) : Bool := beq x (trunc x)
 
+/-- the members of `[a..b]`: the lower bound itself, then its successors (the first member is not
+    converted to an integer and back: it may be as large as 1e300) -/
+def rangeFrom (a : N) : Nat → List (Val N)
+  | 0 => []
+  | n + 1 => .num a :: rangeList (toInt a + 1) n
+
 /-- eval.go `evalRange` after both bounds are evaluated. -/
 def rangeOp (l r : Option (Val N)) : Except Err (Option (Val N)) :=
   let chk (v : Option (Val N)) : Option (Option N) :=  -- none = defined but not an integer
@@ -381,7 +387,7 @@ def rangeOp (l r : Option (Val N)) : Except Err (Option (Val N)) :=
     else
       let size := toInt (sub b a) + 1
       if size < 0 || size > (maxRangeItems : Int) then .error (.eval .maxRangeItems)
-      else .ok (some (.arr (rangeList (toInt a) size.toNat)))
+      else .ok (some (.arr (rangeFrom a size.toNat)))
   | _, _ => .ok none
 
 /-! ### object construction and grouping -/
